@@ -51,6 +51,7 @@ Proof.
   intros v name custom L chunks outs Hv. rewrite (xof_init_custom_spec Perm.perm perm_len v Hv name custom L).
   exact (xof_run_spec Perm.perm perm_len v Hv _ chunks outs (cxof_state_len Perm.perm perm_len v Hv _ custom L)).
 Qed.
+Print Assumptions C03_hash_iv.
 Print Assumptions C03_custom.
 
 (* (T) every pre-computed initial value in the current C source - 64-bit,
